@@ -922,6 +922,11 @@ var vfScripts = [][]string{
 	// the directory cache is switched off at runtime after it has served a listing: every kind of
 	// mutation that follows must still show in the next listing
 	{"MKDIR / d", "READDIR /d", "TOGGLE", "CREATE /d f", "READDIR /d", "MKDIR /d g", "READDIRPLUS /d", "SYMLINK /d s zz", "READDIR /d", "REMOVE /d f", "READDIR /d", "RMDIR /d g", "READDIR /d", "RENAME /d s / s", "READDIR /d", "TOGGLE", "CREATE /d k", "READDIR /d"},
+	// a miss remembered BELOW a name that does not exist (asked through handles that outlived a
+	// rename); then the name is given to a file (the path below it now fails differently), and to a
+	// symlink through which the path below it exists
+	{"MKDIR / c", "MKDIR /c s", "RENAME / c / d", "LOOKUP /c/s x", "CREATE / c", "LOOKUP /c/s x", "REMOVE / c",
+		"LOOKUP / d", "LOOKUP /d s", "CREATE /d/s x", "LOOKUP /c/s x", "SYMLINK / c d", "LOOKUP /c/s x", "GETATTR /c/s"},
 	// the same one level deeper on the source side: entries below the OLD name of a moved tree
 	{"MKDIR / a", "MKDIR /a s", "CREATE /a/s f", "LOOKUP /a/s f", "RENAME / a / b", "MKDIR / a", "MKDIR /a s", "LOOKUP / a", "LOOKUP /a s", "LOOKUP /a/s f", "READDIR /a/s", "SYMLINK /a/s f zz", "LOOKUP /a/s f", "READLINK /a/s/f"},
 }
